@@ -1,6 +1,4 @@
 use crate::math::Real;
-#[cfg(feature = "dim2")]
-use crate::query;
 use crate::query::{Ray, RayCast, RayIntersection};
 #[cfg(feature = "dim2")]
 use crate::shape::FeatureId;
@@ -13,7 +11,7 @@ impl RayCast for HeightField {
         &self,
         ray: &Ray,
         max_time_of_impact: Real,
-        _: bool,
+        solid: bool,
     ) -> Option<RayIntersection> {
         let aabb = self.local_aabb();
         let (min_t, mut max_t) = aabb.clip_ray_parameters(ray)?;
@@ -35,29 +33,28 @@ impl RayCast for HeightField {
             }
         });
 
+        // Casts the ray on the segment of a cell. The segment ray-cast handles the rays that are
+        // parallel or collinear to the segment, and orients the normal against the ray.
+        let cast_on_cell = |cell: usize| {
+            let seg = self.segment_at(cell)?;
+            let mut inter = seg.cast_local_ray_and_get_normal(ray, max_time_of_impact, solid)?;
+            inter.feature = match inter.feature {
+                // The ray hit the front face.
+                FeatureId::Face(0) => FeatureId::Face(cell as u32),
+                // The ray hit the back face.
+                FeatureId::Face(_) => FeatureId::Face((cell + self.num_cells()) as u32),
+                FeatureId::Vertex(i) => FeatureId::Vertex(cell as u32 + i),
+                feature => feature,
+            };
+            Some(inter)
+        };
+
         /*
          * Test the segment under the ray.
          */
-        if let Some(seg) = self.segment_at(curr) {
-            let (s, t) = query::details::closest_points_line_line_parameters(
-                &ray.origin,
-                &ray.dir,
-                &seg.a,
-                &seg.scaled_direction(),
-            );
-            if s >= 0.0 && s <= max_time_of_impact && t >= 0.0 && t <= 1.0 {
-                // Cast succeeded on the first element!
-                let n = seg.normal().unwrap().into_inner();
-                let fid = if n.dot(&ray.dir) > 0.0 {
-                    // The ray hit the back face.
-                    curr + self.num_cells()
-                } else {
-                    // The ray hit the front face.
-                    curr
-                };
-
-                return Some(RayIntersection::new(s, n, FeatureId::Face(fid as u32)));
-            }
+        if let Some(inter) = cast_on_cell(curr) {
+            // Cast succeeded on the first element!
+            return Some(inter);
         }
 
         /*
@@ -91,26 +88,9 @@ impl RayCast for HeightField {
                 return None;
             }
 
-            if let Some(seg) = self.segment_at(curr) {
-                // TODO: test the y-coordinates (equivalent to an Aabb test) before actually computing the intersection.
-                let (s, t) = query::details::closest_points_line_line_parameters(
-                    &ray.origin,
-                    &ray.dir,
-                    &seg.a,
-                    &seg.scaled_direction(),
-                );
-
-                if t >= 0.0 && t <= 1.0 && s <= max_time_of_impact {
-                    let n = seg.normal().unwrap().into_inner();
-                    let fid = if n.dot(&ray.dir) > 0.0 {
-                        // The ray hit the back face.
-                        curr + self.num_cells()
-                    } else {
-                        // The ray hit the front face.
-                        curr
-                    };
-                    return Some(RayIntersection::new(s, n, FeatureId::Face(fid as u32)));
-                }
+            // TODO: test the y-coordinates (equivalent to an Aabb test) before actually computing the intersection.
+            if let Some(inter) = cast_on_cell(curr) {
+                return Some(inter);
             }
         }
 
